@@ -39,6 +39,70 @@ def sim_case(draw, big=False):
     return {"prog": prog, "inputs": inputs, "single": single, "outputs": outputs}
 
 
+@st.composite
+def bunched_case(draw, big=False):
+    """Few modes, many photons: several modes sharing occupations >= 2."""
+    prog = draw(gen.flat_program(min_n=2, max_n=4, max_ops=6))
+    prog, _ = gen.limit_loss(prog, 2)
+    if draw(st.booleans()) and prog["n"] >= 3:
+        prog["ops"].append(["herald", draw(st.integers(0, 2)), draw(st.integers(0, prog["n"] - 1)),
+                            draw(st.integers(0, prog["n"] - 1))])
+    nv = prog["n"] - gen.count_heralds(prog)
+    nph = draw(st.integers(3, 7 if big else 6))
+    occ = st.lists(st.sampled_from([0, 2, 2, 3, 1]), min_size=nv, max_size=nv)
+    inputs = [draw(occ)]
+    nph = sum(inputs[0])
+    outputs = draw(st.lists(gen.fock_state(nv, nph), min_size=1, max_size=6))
+    same = list(inputs[0])
+    outputs.append(list(draw(st.permutations(same))))
+    return {"prog": prog, "inputs": inputs, "single": draw(st.booleans()), "outputs": outputs}
+
+
+@st.composite
+def live_case(draw):
+    """Simulator created first, circuit edited afterwards."""
+    base = draw(sim_case())
+    prog = base["prog"]
+    cut = draw(st.integers(0, len(prog["ops"])))
+    base["cut"] = cut
+    return base
+
+
+def run_live(case):
+    """The Simulator must use the circuit as it is when simulate() is called."""
+    import lightworks as lw
+    from lightworks import emulator
+    from vlib.build import apply_real
+    prog = case["prog"]
+    c = lw.Circuit(prog["n"])
+    for op in prog["ops"][:case["cut"]]:
+        c = call("apply", apply_real, c, op)
+    sim = emulator.Simulator(c)
+    later = prog["ops"][case["cut"]:]
+    if any(op[0] == "plus" for op in later):
+        later = [op for op in later if op[0] != "plus"]     # '+' creates a new object
+    for op in later:
+        c = call("apply", apply_real, c, op)
+    nv = c.input_modes
+    nph = sum(case["inputs"][0])
+    ins = [lw.State((list(s) + [0] * nv)[:nv]) for s in case["inputs"]]
+    tot = {sum(s) for s in ins}
+    if len(tot) != 1:
+        ins = ins[:1]
+    res = call("simulate after edit", sim.simulate, ins)
+    arr = np.asarray(res.array)
+    for i, vin in enumerate(res.inputs):
+        for j, vout in enumerate(res.outputs):
+            ref = real_heralded_amp(c, list(vin), list(vout))
+            if not abs(arr[i, j] - ref) <= TOL:
+                raise Violation(f"Simulator created before the circuit was completed: amplitude "
+                                f"{list(vin)}->{list(vout)} is {arr[i, j]:.6g}, current circuit gives {ref:.6g}",
+                                key="stale-circuit")
+    edited_heralds = any(op[0] == "herald" or (op[0] == "add" and gen.has_any_herald(op[1])) for op in later)
+    return {"nontrivial": bool(later) and nph >= 1,
+            "labels": ["heralds-added-after-construction"] if edited_heralds else []}
+
+
 def run_sim(case):
     import lightworks as lw
     from lightworks import emulator
@@ -150,5 +214,7 @@ def subs(tier):
     q = tier == "quick"
     return [
         Sub("amplitudes", run_sim, strategy=sim_case(big=not q), examples=120 if q else 2000),
+        Sub("bunched", run_sim, strategy=bunched_case(big=not q), examples=60 if q else 1000),
+        Sub("live-circuit", run_live, strategy=live_case(), examples=60 if q else 800),
         Sub("rejects", run_bad, strategy=bad_case(), examples=60 if q else 600),
     ]
